@@ -21,6 +21,7 @@ EXPLANATION = (
     "_stop iff started and clears the flag on every normal path, start sets it before _start; (3) WRAP: every callback handed to an exception-swallowing scheduling API - including the idle "
     "redraw - runs user code only inside the loop's capturing try (shared with C13); (4) ORDER: _update passes input through input_filter before process_input and hands on the filter's "
     "result; in process_input unhandled_input is not reachable when the widget handled the key/mouse event and is reached (or the redraw command) when it did not."
+    ' Added after seed round 3: signal_restore is understood also when folded into a loop over (signal, saved handler) pairs and the restored expression may replace only a None / false saved value by SIG_DFL; (5) inside the batch loop of process_input the top widget (and anything derived from it) is read afresh for every event.'
 )
 NOT_DECIDED = "That the terminal really ends up in its initial modes (needs a pty), delivery order across reads, redraw-before-wait timing, failures inside MainLoop.start()/stop() themselves."
 ASSUMPTIONS = ["glib_loop.py cannot be imported here; its reports are informational only."]
